@@ -17,7 +17,8 @@ pub struct GenParams {
     pub cands: (u32, u32),
     /// probability that a version set keeps a given candidate
     pub p_keep: f64,
-    pub vs_nonempty: bool,
+    /// probability that an empty match set is kept empty
+    pub p_allow_empty: f64,
     /// requirements per solvable
     pub reqs: (u32, u32),
     pub p_union: f64,
@@ -46,24 +47,24 @@ impl GenParams {
         GenParams {
             pkgs: (2, 6),
             cands: (1, 4),
-            p_keep: 0.55,
-            vs_nonempty: false,
-            reqs: (0, 3),
+            p_keep: 0.65,
+            p_allow_empty: 0.1,
+            reqs: (0, 2),
             p_union: 0.15,
-            p_cons: 0.3,
+            p_cons: 0.2,
             acyclic: false,
             p_self: 0.03,
-            p_missing: 0.06,
-            p_unknown: 0.05,
-            p_lock: 0.08,
-            p_excl: 0.06,
+            p_missing: 0.04,
+            p_unknown: 0.04,
+            p_lock: 0.06,
+            p_excl: 0.05,
             p_excl_unlisted: 0.3,
             p_favored: 0.2,
             hint: HintGen::None,
-            root_reqs: (1, 3),
+            root_reqs: (1, 2),
             root_full: false,
             p_root_union: 0.15,
-            p_root_cons: 0.25,
+            p_root_cons: 0.2,
             soft: (0, 0),
             p_top: 0.0,
         }
@@ -77,7 +78,7 @@ impl GenParams {
                 pkgs: (6, 10),
                 cands: (2, 4),
                 p_keep: 0.4,
-                vs_nonempty: true,
+                p_allow_empty: 0.0,
                 reqs: (0, 3),
                 p_union: 0.05,
                 p_cons: 0.5,
@@ -96,7 +97,7 @@ impl GenParams {
                 pkgs: (5, 7),
                 cands: (2, 3),
                 p_keep: 0.4,
-                vs_nonempty: true,
+                p_allow_empty: 0.0,
                 reqs: (0, 3),
                 p_union: 0.05,
                 p_cons: 0.5,
@@ -114,7 +115,7 @@ impl GenParams {
                 pkgs: (2, 7),
                 cands: (1, 4),
                 p_keep: 0.5,
-                vs_nonempty: true,
+                p_allow_empty: 0.0,
                 reqs: (0, 2),
                 p_union: 0.2,
                 p_cons: 0.1,
@@ -131,7 +132,7 @@ impl GenParams {
                 pkgs: (4, 8),
                 cands: (2, 4),
                 p_keep: 0.45,
-                vs_nonempty: true,
+                p_allow_empty: 0.0,
                 reqs: (0, 3),
                 p_union: 0.1,
                 p_cons: 0.45,
@@ -184,10 +185,10 @@ impl GenParams {
             "cyclic" => GenParams {
                 pkgs: (2, 5),
                 cands: (1, 3),
-                reqs: (1, 3),
+                reqs: (0, 2),
                 p_self: 0.1,
-                p_cons: 0.4,
-                p_keep: 0.5,
+                p_cons: 0.3,
+                p_keep: 0.7,
                 ..b
             },
             "small" => GenParams {
@@ -203,7 +204,8 @@ impl GenParams {
                 p_union: 0.3,
                 root_reqs: (2, 6),
                 p_missing: 0.0,
-                p_cons: 0.3,
+                p_keep: 0.85,
+                p_cons: 0.1,
                 ..b
             },
             _ => panic!("unknown profile {name}"),
@@ -291,7 +293,7 @@ pub fn gen_universe(rng: &mut Rng, g: &GenParams) -> (Universe, Problem) {
                 m.push(top);
             }
         }
-        if m.is_empty() && g.vs_nonempty && !p.cands.is_empty() {
+        if m.is_empty() && !p.cands.is_empty() && !rng.chance(g.p_allow_empty) {
             m.push(*rng.pick(&p.cands));
         }
         m.sort();
